@@ -136,7 +136,8 @@ def s_s_cost_discrete(reorder_point, order_up_to_level, holding_cost,
 		# We only need values up through S-s.
 		pmf = poisson.pmf(range(int(order_up_to_level) - int(reorder_point)), demand_mean)
 	else:
-		pmf = demand_pmf
+		# We need values up through S-s; demands above demand_hi have probability 0.
+		pmf = list(demand_pmf) + [0] * max(0, int(order_up_to_level) - int(reorder_point) - len(demand_pmf))
 
 	# Calculate m(.) function.
 	m = np.zeros(int(order_up_to_level) - int(reorder_point))
@@ -165,7 +166,7 @@ def s_s_cost_discrete(reorder_point, order_up_to_level, holding_cost,
 				holding_cost=holding_cost,
 				stockout_cost=stockout_cost,
 				demand_distrib=None,
-				demand_pmf={n: demand_pmf[n] for n in range(demand_hi)},
+				demand_pmf={n: demand_pmf[n] for n in range(demand_hi+1)},
 				base_stock_level=order_up_to_level - d)[1]
 	cost /= M[int(order_up_to_level)-int(reorder_point)]
 
